@@ -52,6 +52,8 @@ with the new definition in it, column for column -/
 def createTable_then_open := @MsiProofs.Lifecycle.createTable_then_open
 /-- an accepted `create_table` extends the catalog tables by exactly the rows of the new definition -/
 def createTable_full := @MsiProofs.CreateTable.createTable_full
+/-- an accepted `drop_table` leaves the catalog tables holding exactly the rows of the remaining definitions -/
+def dropTable_full := @MsiProofs.DropTable.dropTable_full
 /-- the membership form of the catalog invariant implies the decode form -/
 def synced_of_rows := @MsiProofs.CatalogRows.synced_of_rows
 /-- the state `Package::create` builds has its catalog in sync (non-vacuity of the invariants) -/
